@@ -2,7 +2,7 @@
 # Run every stored seed against the check of its property (scratch copies only).
 # usage: seedsweep.sh [scale]   -> prints one CAUGHT/MISSED line per seed
 scale=${1:-0.3}
-for d in /verif/seeded/C*-[AB]; do
+for d in /verif/seeded/C*-[A-Z]; do
   k=$(basename $d); P=${k%-*}
   if [ "$k" = "C12-B" ]; then
     /verif/tools/mutcheck.sh seed-$k $P /verif/mutants/seed-c12-B-on-prefix-tree.sh $scale layout 2>&1 | tail -1
